@@ -242,6 +242,10 @@ def call_builtin(it, name, pos, kw):
         items = it.concrete_items(pos[0])
         if items is not None and all(isinstance(a, (int, float)) for a in items):
             return sorted(items)
+        x = pos[0]
+        if isinstance(x, Arr) and x.ndim == 1 and not kw:
+            r = N.np_sort(ctx, Arr(x.shape, N.snap(x).fn, x.dtype))
+            return Arr(r.shape, r.fn, r.dtype, kind="list")
         raise PathAbort("sorted of symbolic", ctx.cur_line)
     if name == "prod":
         return sym_prod(it, pos[0])
@@ -722,4 +726,21 @@ def call_py_method(it, r, name, pos, kw):
         return Opaque("str")
     if isinstance(r, SymList) and name == "copy":
         return SymList(r.length, r.item, r.kind)
+    if isinstance(r, SymList) and name == "append":
+        # in-place append: element `length` becomes the new item (matrices are merged entry-wise)
+        x, old_item, L = pos[0], r.item, r.length
+        if not (isinstance(x, Arr) and x.ndim == 2):
+            raise PathAbort("append of a non-matrix to a symbolic list", ctx.cur_line)
+        xs = N.snap(x)
+
+        def item(m, old_item=old_item, L=L, xs=xs):
+            o = old_item(m)
+            if not (isinstance(o, Arr) and o.ndim == 2):
+                raise PathAbort("symbolic list with non-matrix items", ctx.cur_line)
+            c = T.eq(m, L)
+            return Arr((T.Ite(c, xs.shape[0], o.shape[0]), T.Ite(c, xs.shape[1], o.shape[1])),
+                       lambda i, j: T.Ite(c, xs.fn(i, j), o.fn(i, j)), join_dtype(xs.dtype, o.dtype))
+        r.item = item
+        r.length = T.add(L, 1)
+        return None
     raise PathAbort(f"method {name} of {type(r).__name__}", ctx.cur_line)
